@@ -50,11 +50,12 @@ InvReadOnly == done => exp = Written(col, hist)
 \* to what was built), or is refused - only a string column that was serialised before and whose data were written
 \* since; operations that serialise nothing give nothing
 SerOut(o, k) ==
-  \/ o.oc = "ok" /\ o.c = Written(col, SubSeq(hist, 1, k))
+  \/ o.oc \in {"ok", "values"} /\ o.c = Written(col, SubSeq(hist, 1, k))
   \/ /\ o.oc = "Rejected" /\ col.d.t = StrT
      /\ \E i \in 1..k : \E j \in (i + 1)..k : hist[i][1] \in {"serialize", "write"} /\ hist[j][1] = "set_data"
 InvOuts == done => /\ Len(outs) = Len(hist)
-                   /\ \A k \in DOMAIN hist : IF hist[k][1] \in SerOps THEN SerOut(outs[k], k - 1) ELSE outs[k].oc = "none"
+                   /\ \A k \in DOMAIN hist : IF hist[k][1] \in SerOps THEN SerOut(outs[k], k - 1) /\ (outs[k].oc = "values" <=> hist[k][1] = "compress")
+                                                ELSE outs[k].oc = "none"
                    /\ SerOut(fin, Len(hist))
                    /\ (col.d.t # StrT => fin.oc = "ok")
 InvDomain == Dom_Col(col) /\ Dom_Hist(hist)
@@ -76,7 +77,7 @@ ASSUME LET C == Col(Arr(3, <<11, 22, 33>>), Some(<<0, 1, 2>>))
           /\ After(S, <<sa>>).d.v = << <<"c", "b">>, <<"c">> >> /\ After(S, <<sa, sa>>).d.v = << <<"a", "b">>, <<"a">> >>
           /\ Final(C, None, <<ser, sd>>).outs[3] = Out("ok", After(C, <<sd>>))
           /\ HistSituations(C, <<ser, sd>>) = {"AccessWithoutWrite", "DataWrittenBetweenSerialisations"}
-          /\ Final(S, None, <<wr, sd>>).outs[3].oc = "Rejected" /\ Final(S, None, <<cp, sd>>).outs[3].oc = "ok"
+          /\ Final(S, None, <<wr, sd>>).outs[3].oc = "Rejected" /\ Final(S, None, <<cp, sd>>).outs[3].oc = "ok" /\ Final(S, None, <<cp, sd>>).outs[1] = Out("values", S)
           /\ Final(S, None, <<wr, sd, <<"assign", "none", FALSE>>>>).outs[4].oc = "ok"
           /\ Final(S, None, <<wr, sa, sa>>).outs[4].oc = "Rejected"
           /\ LET T == Col(Arr(StrT, << <<"a">> >>), None) IN Final(T, None, <<wr, sa, sa>>).outs[4] = Out("ok", T)
